@@ -1,6 +1,10 @@
 # (class id, regex on violation key, what) - reviewed classes of genuine cc6502 defects (see DESIGN.md "Known findings")
 W16 = r'(ha|wa|w2|wb)'
 CLASSES = {
+ 'C10': [
+  ('T01-prec-eq-rel', r'^calculator\.table\.(eq|neq)\.(gt|gte|lt|lte)$', "constant expressions: == and != share one precedence level with < > <= >=, so `a == b > c` is grouped as `(a == b) > c` (C: `a == (b > c)`)"),
+  ('T02-ternary-sentinel', r'^parse_calc\.ternary\.sentinel$', "constant `c ? a : b` uses the value 0x7eaddead as an in-band 'condition was false' marker: `1 ? 2125323949 : x` yields x"),
+ ],
  'C17': [
   ('P01-shift16-rmw', r'(w_shrass|expr/shass/|expr/sh/|rw/cass)', "16-bit shift-assignment (x >>= k, x <<= k) on a variable in split-port RAM is emitted as LSR/ROR/ASL/ROL directly on memory: read-modify-write cycle on the read port"),
  ],
